@@ -17,7 +17,7 @@ from levycases import INF, rlit, tol_lit, Case
 
 PROP = "C09"
 PROPERTY_FILE = "Properties/C09.v"
-GEN_DEPS = ["GenC09Hem", "GenC09Vg", "GenC09Trunc"]
+GEN_DEPS = ["GenC09Hem", "GenC09Vg", "GenC09Merton", "GenC09Trunc"]
 RULE = ("oracle cases: (model, parameters, interval kind, n, route) with models HEM/Merton/VG/CGMY (fixed + random parameters, "
         "CGMY y in {-0.5,0,0.3,1,1.5,random}), 14 interval kinds (pos, neg, straddle, touching 0, half-lines, whole line, points), "
         "n = 0..5 through integrate/_x/_xx and integrate_against_xn, truncations; non-trivial = the integral is finite and the "
@@ -207,8 +207,13 @@ def _oracle(res, rng):
 
 
 # ============================================================================================ Coq correspondence
-HEADER = L.HEADER_COMMON + """From RV Require Import Base.RB Gen.GenC09Hem Gen.GenC09Trunc Model.LevyClosedForms Proofs.C09_Hem.
+HEADER = L.HEADER_COMMON + """From RV Require Import Base.RB Base.RSpecial Gen.GenC09Hem Gen.GenC09Vg Gen.GenC09Merton Gen.GenC09Trunc Model.LevyClosedForms
+  Proofs.C09_Generic Proofs.C09_Hem Proofs.C09_XnExp Proofs.C09_Vg Proofs.C09_Merton Proofs.C09_Cgmy.
+Ltac xn_unfold := cbv [xn_helper helper_sum_fact_xk sum_pow_over_fact sgn_even fact Nat.even Nat.sub Nat.add Nat.mul
+                       Init.Nat.add Init.Nat.mul INR negb].
 """
+I80 = "interval with (i_prec 80)."
+G80 = "integral with (i_prec 80)."
 
 
 def _hem_cases(res, rng, per_group):
@@ -274,10 +279,154 @@ def _trunc_cases(res, rng, per_group):
     return cases
 
 
+def _side(a, b):
+    return "straddle" if a < 0 < b else ("neg" if b <= 0 else "pos")
+
+
+def _xn_rewrites(a, b):
+    """rewrites that expose xn_helper for integral_xn_exp_minus_x n alpha a b (finite a <= b)"""
+    if a < 0 < b:
+        return "rewrite xn_exp_straddle, xn_exp_neg, xn_exp_pos by lra."
+    return "rewrite xn_exp_neg by lra." if b <= 0 else "rewrite xn_exp_pos by lra."
+
+
+def _xn_exp_cases(res, rng, per_group):
+    from rpylib.tools.integral import integral_xn_exp_minus_x
+    cases = []
+    for kindk in ("pos", "neg", "straddle", "touch0-right", "touch0-left"):
+        for _ in range(per_group):
+            a, b = L.interval(rng, kindk)
+            n, alpha = rng.randrange(0, 6), L.rnd(rng, 0.2, 9)
+            v = float(integral_xn_exp_minus_x(n=n, a=a, b=b, alpha=alpha))
+            tl, _ = tol_lit(v)
+            stmt = f"Rabs (integral_xn_exp_minus_x {n}%nat {rlit(alpha)} {rlit(a)} {rlit(b)} - {rlit(v)}) <= {tl}"
+            cases.append(Case(("xn_exp", n, kindk), stmt, f"{_xn_rewrites(a, b)} xn_unfold. {I80}", dict(n=n, alpha=alpha, a=a, b=b, impl=v)))
+            res.count(("coq-xnexp", n, alpha, a, b), kind="coq integral_xn_exp_minus_x")
+    return cases
+
+
+def _vg_cases(res, rng, per_group):
+    cases = []
+    for kindk in ("pos", "neg", "straddle", "touch0-right", "touch0-left"):
+        for _ in range(per_group):
+            params = L.vg_params(rng) if rng.random() < 0.8 else dict(L.FIXED["vg"][0])
+            _, nu = L.build("vg", params)
+            c, lm, lp = (float(getattr(nu.parameters, k)) for k in ("_c", "_lambda_m", "_lambda_p"))
+            args = f"{rlit(c)} {rlit(lm)} {rlit(lp)}"
+            a, b = L.interval(rng, kindk)
+            n = rng.randrange(0, 6)
+            if n == 0 and kindk not in ("pos", "neg"):
+                n = 1
+            info = dict(model="vg", params=params, c=c, lm=lm, lp=lp, a=a, b=b, n=n)
+            side = _side(a, b)
+            if n == 0:
+                v = float(nu.integrate(a, b))
+                stmt = f"Rabs (vg_integrate (E1c 0) INFV {args} {rlit(a)} {rlit(b)} - {rlit(v)}) <= {tol_lit(v)[0]}"
+                proof = f"rewrite vg_integrate_{'pospos' if side == 'pos' else 'negneg'} by lra. unfold e1f. {G80}"
+                cases.append(Case(("vg", "mass", kindk), stmt, proof, dict(info, impl=v)))
+            else:
+                if n <= 2:
+                    f = ["", "vg_integrate_x", "vg_integrate_xx"][n]
+                    v = float([None, nu.integrate_against_x, nu.integrate_against_xx][n](a, b))
+                    stmt = f"Rabs ({f} INFV {args} {rlit(a)} {rlit(b)} - {rlit(v)}) <= {tol_lit(v)[0]}"
+                    rw = f"rewrite {f}_straddle, {f}_neg, {f}_pos by lra." if side == "straddle" else f"rewrite {f}_{side} by lra."
+                    cases.append(Case(("vg", f, kindk), stmt, f"{rw} {I80}", dict(info, impl=v)))
+                v = float(nu.integrate_against_xn(a, b, n))
+                stmt = f"Rabs (vg_integrate_xn {args} {n}%nat {rlit(a)} {rlit(b)} - {rlit(v)}) <= {tol_lit(v)[0]}"
+                rw = ("rewrite vg_integrate_xn_straddle, vg_integrate_xn_neg, vg_integrate_xn_pos by lra. rewrite xn_exp_neg, xn_exp_pos by lra."
+                      if side == "straddle" else f"rewrite vg_integrate_xn_{side} by lra. rewrite xn_exp_{side} by lra.")
+                cases.append(Case(("vg", "xn", n, kindk), stmt, f"{rw} xn_unfold. {I80}", dict(info, impl=v, via="xn")))
+            res.count(("coq-vg", tuple(sorted(params.items())), a, b, n), kind="coq vg")
+    return cases
+
+
+def _merton_cases(res, rng, per_group):
+    cases = []
+    for kindk in ("pos", "neg", "straddle", "touch0-right", "touch0-left"):
+        for _ in range(per_group):
+            params = L.merton_params(rng) if rng.random() < 0.8 else dict(L.FIXED["merton"][0])
+            _, nu = L.build("merton", params)
+            a, b = L.interval(rng, kindk)
+            n = rng.randrange(3)
+            v = float(L.call_integral(nu, a, b, n, "direct"))
+            args = _lits(params, ("intensity", "mu_j", "sigma_j"))
+            f = ["merton_integrate", "merton_integrate_x", "merton_integrate_xx"][n]
+            call = f"{f} {'INFV ' if n == 2 else ''}{args} {rlit(a)} {rlit(b)}"
+            stmt = f"Rabs ({call} - {rlit(v)}) <= {tol_lit(v)[0]}"
+            proof = f"rewrite {f}_as_RInt{' by lra' if n == 2 else ''}. unfold gauss. {G80}"
+            cases.append(Case(("merton", n, kindk), stmt, proof, dict(model="merton", params=params, a=a, b=b, n=n, impl=v)))
+            res.count(("coq-merton", tuple(sorted(params.items())), a, b, n), nontrivial=a != b, kind="coq merton")
+    return cases
+
+
+def _lits(params, keys):
+    return " ".join(rlit(params[k]) for k in keys)
+
+
+def _cgmy_cases(res, rng, per_group):
+    """one side of zero, activity index in the branches the model covers: mass y < 1, y <> 0; first moment y <> 1"""
+    cases = []
+    for kindk in ("pos", "neg"):
+        for _ in range(2 * per_group):
+            n = rng.randrange(2)
+            ys = [-0.5, 0.3, rng.choice([L.rnd(rng, -1.5, -0.05), L.rnd(rng, 0.05, 0.95)])] + ([1.5, 0.0, L.rnd(rng, 1.05, 1.9)] if n == 1 else [])
+            params = L.cgmy_params(rng, y=rng.choice(ys))
+            _, nu = L.build("cgmy", params)
+            a, b = L.interval(rng, kindk)
+            v = float(L.call_integral(nu, a, b, n, "direct"))
+            u = params["m"] if kindk == "pos" else params["g"]
+            args = f"(Gupc 0) {rlit(params['c'])} {rlit(u)} {rlit(params['y'])} {rlit(a)} {rlit(b)}"
+            f = ["cgmy_integrate", "cgmy_integrate_x"][n] + ("_pos" if kindk == "pos" else "_neg")
+            stmt = f"Rabs ({f} {args} - {rlit(v)}) <= {tol_lit(v)[0]}"
+            base = ["cgmy_integrate_pos_as_RInt", "cgmy_integrate_x_pos_as_RInt"][n]
+            rw = f"rewrite {base} by lra." if kindk == "pos" else f"rewrite {f}_as_pos, {base} by lra."
+            cases.append(Case(("cgmy", n, kindk, params["y"]), stmt, f"{rw} unfold igf. {G80}",
+                              dict(model="cgmy", params=params, a=a, b=b, n=n, impl=v)))
+            res.count(("coq-cgmy", tuple(sorted(params.items())), a, b, n), kind="coq cgmy")
+            res.bump("coq_cgmy_activity", "y<0" if params["y"] < 0 else ("y=0" if params["y"] == 0 else ("0<y<1" if params["y"] < 1 else "1<y<2")))
+    return cases
+
+
+def _truncated_hem_cases(res, rng, per_group):
+    """TruncatedLevyMeasure(HEM).integrate*(a,b) against truncated_integrate (hand model) over the generated closed forms"""
+    from rpylib.model.levymodel.levymodel import TruncatedLevyMeasure
+    cases = []
+    for _ in range(2 * per_group):
+        params = L.hem_params(rng)
+        _, nu = L.build("hem", params)
+        l, r = -L._pt(rng), L._pt(rng)
+        t = TruncatedLevyMeasure(nu, (l, r))
+        a, b = L.interval(rng, rng.choice(["pos", "neg", "straddle", "touch0-right", "touch0-left"]))
+        n = rng.randrange(3)
+        v = float(L.call_integral(t, a, b, n, rng.choice(["direct", "xn"])))
+        aa, bb = t._truncated_interval(a, b)
+        f = ["hem_integrate", "hem_integrate_x", "hem_integrate_xx"][n]
+        args = _lits(params, ("intensity", "p", "eta1", "eta2"))
+        stmt = f"Rabs (truncated_integrate ({f} INFV {args}) {rlit(l)} {rlit(r)} {rlit(a)} {rlit(b)} - {rlit(v)}) <= {tol_lit(v)[0]}"
+        m1, m2 = min(a, r), max(b, l)
+        steps = [f"rewrite (Rmin_{'left' if a <= r else 'right'} {rlit(a)} {rlit(r)}) by lra.",
+                 f"rewrite (Rmax_{'left' if m1 >= l else 'right'} {rlit(m1)} {rlit(l)}) by lra.",
+                 f"rewrite (Rmax_{'left' if b >= l else 'right'} {rlit(b)} {rlit(l)}) by lra.",
+                 f"rewrite (Rmin_{'left' if m2 <= r else 'right'} {rlit(m2)} {rlit(r)}) by lra."]
+        if aa < 0 < bb:
+            br = f"rewrite {f}_straddle, {f}_neg, {f}_pos by lra."
+        elif bb <= 0:
+            br = f"rewrite {f}_neg by lra."
+        else:
+            br = f"rewrite {f}_pos by lra."
+        proof = ("unfold truncated_integrate. replace (Rltb _ _) with false by (symmetry; apply Rltb_false; lra). "
+                 "rewrite truncated_interval_eq. " + " ".join(steps) + f" {br} {I80}")
+        cases.append(Case(("trunc-hem", n, l, r, a, b), stmt, proof, dict(model="hem", params=params, truncations=[l, r], a=a, b=b, n=n, impl=v)))
+        res.count(("coq-trunc-hem", tuple(sorted(params.items())), l, r, a, b, n), kind="coq truncated hem")
+    return cases
+
+
 def _coq(res, rng):
     cfg = _cfg(res)
-    cases = _hem_cases(res, rng, cfg["coq_per_group"]) + _trunc_cases(res, rng, cfg["coq_per_group"])
-    hdr = HEADER.replace("Proofs.C09_Hem.", "Proofs.C09_Hem Proofs.C09_Generic.")
+    k = cfg["coq_per_group"]
+    cases = (_hem_cases(res, rng, k) + _trunc_cases(res, rng, k) + _xn_exp_cases(res, rng, max(2, k // 2)) + _vg_cases(res, rng, max(2, k // 2))
+             + _merton_cases(res, rng, max(2, k // 2)) + _cgmy_cases(res, rng, max(2, k // 2)) + _truncated_hem_cases(res, rng, max(2, k // 2)))
+    hdr = HEADER
     nfiles, failed = L.run_cases(PROP, "cases", hdr, cases, jobs=12, timeout=600)
     res.case_lemmas += len(cases)
     res.case_ok += len(cases) - len(failed)
